@@ -11,7 +11,7 @@
 (* Coverage of this transcription: the characters in `Modelled`.  Rules whose condition needs *)
 (* a neighbour outside `Modelled` are not transcribed yet (named deviation): model-checking   *)
 (* alphabets must be subsets of `Modelled`.                                                   *)
-EXTENDS Lattice
+EXTENDS Lattice, Chars
 
 cSP == 32  cDASH == 45  cTILDE == 126  cBAR == 124  cCOLON == 58  cBANG == 33
 cPLUS == 43  cDOT == 46  cAPOS == 39
